@@ -59,6 +59,10 @@ def run(ctx):
             j = dict(D=D, geo="lin", x0="in", mode="det", target="sphere_in", cons=None, seed=seeds[0], monitors=MON,
                      opts={"max_fun_evals": 45, "noise_final_samples": 2}, script={"second": delta}, tol_noise_check=eps * 1e-3)
             cells.append(j)
+        for delta in (0.0, 1e-300):
+            j = dict(D=D, geo="lin", x0="in", mode="det", target="sphere_in", cons=None, seed=seeds[0], monitors=MON,
+                     opts={"max_fun_evals": 45, "noise_final_samples": 2, "tol_noise": 0.0}, script={"second": delta}, tol_noise_check=0.0)
+            cells.append(j)
         for delta in (0.4, 0.6):
             j = dict(D=D, geo="lin", x0="in", mode="det", target="sphere_in", cons=None, seed=seeds[0], monitors=MON,
                      opts={"max_fun_evals": 45, "noise_final_samples": 2, "tol_noise": 0.5}, script={"second": delta}, tol_noise_check=0.5)
